@@ -439,6 +439,34 @@ def run(R):
             if fails:
                 break
 
+    # ---- split-file maps whose window ends lie far apart (> 2^31, 2^32, 2^63), in any order: sort and lookups of pfn.c
+    import sys as _sys
+    _sys.path.insert(0, os.path.dirname(os.path.abspath(__file__)))
+    import c07
+    ml, mw = c07.maps_stream(R, 120 if R.tier == "quick" else 3000)
+    exe3 = R.build_harness("s_pfn", ["s_pfn.c"], lib=lib, cflags=cflags + ["-ffunction-sections", "-fdata-sections"], ldflags=["-Wl,--gc-sections"])
+    rc3, out3, err3 = R.run_harness(exe3, stdin_text="\n".join(ml) + "\n")
+    mimpl = [o.rstrip() for o in kdf.obs(out3)]
+    mmodel = [o.rstrip() for o in kdf.obs(R.run_driver("pfn", "\n".join(ml) + "\n"))]
+    if not fails:
+        if rc3 != 0 or len(mimpl) != len(ml):
+            k = min(len(mimpl), len(ml) - 1)
+            fails.append(("split-map harness stopped after %d of %d (rc=%s) at '%s': %s" % (len(mimpl), len(ml), rc3, ml[k], err3.strip()[:300]),
+                          dict(stream="pfn/maps", case=ml[k], stderr=err3[-1200:])))
+        else:
+            for l, o, w in zip(ml, mimpl, mw):
+                if o != w:
+                    fails.append(("split-file maps '%s' (start:end:region:count per file, in the order passed): the library answers '%s'; sorted window "
+                                  "ends, next stored frame, next missing frame and page-map bits of the set are '%s'" % (l, o, w),
+                                  dict(stream="pfn/maps", case=l, impl=o, want=w)))
+                    break
+    if mism is None and not fails:
+        m3 = kdf.diff_streams(mimpl, mmodel)
+        if m3 is not None:
+            mism = len(impl_cmp) + m3
+            impl_cmp = impl_cmp + mimpl; model = model + mmodel
+            obs_meta = obs_meta + [("maps", l) for l in ml]
+
     if fails:
         msg, rep = fails[0]
         rep["broken_theorems"] = proof["broken"]
@@ -459,7 +487,7 @@ def run(R):
                              "C10 theorems about addrxlat_map_set (Kdf.Props.C10)", "qsort sorts; malloc/realloc succeed; file reads return the file's bytes, zero past EOF",
                              "tools/dumpgen.py writers (ELF, diskdump incl. split, flattened records)", "harness/s_flat.c, harness/s_fmt.c, gcc + ASan/UBSan, ld --wrap"],
                broken_theorems=proof["broken"], theorems=THEOREMS,
-               evaluations=len(impl) + pack_eval, distinct_nontrivial=nontriv,
+               evaluations=len(impl) + pack_eval + len(mimpl), distinct_nontrivial=nontriv + len(set(ml)), split_map_cases=len(mimpl),
                rule="flat: explicit record streams (0..70 records, adjacent/overlapping/nested/identical rewrites, holes, offsets up to 2^62, "
                     "invalid headers), pread and get_chunk at every record boundary -2..+1 with lengths reaching the next three boundaries +-1; "
                     "split: descriptor lookup of every frame for 2-4 windows in shuffled order with plain/flattened members; pack: plain twin vs "
